@@ -6,7 +6,7 @@
 (* record as JSON.  The verdict is computed here, by TLC; the orchestrator *)
 (* only collects the lines.                                                *)
 (***************************************************************************)
-EXTENDS CanonLR1, TLC, Json, IOUtils
+EXTENDS Automaton, TLC, Json, IOUtils
 
 Dumps == ndJsonDeserialize(IOEnv.DUMPS)
 VARIABLE i
@@ -28,7 +28,11 @@ Verdict(d) ==
       \* for LALR_RN tables; conflict freedom is judged on the LALR(1) entries
       lalr_ok |-> (lalr => \A qt \in conf :
                       Cardinality({a \in TCell(T, qt[1], qt[2]) : a.k # "r" \/ a.n = RhsLen(T, a.p)}) <= 1),
-      wf |-> WFDefects(T, C)]
+      wf |-> WFDefects(T, C),
+      \* binding of the OPERATIONAL construction model: Automaton.Build (FIFO work list,
+      \* merge test, propagation) must reproduce the dumped automaton state by state
+      \* (a difference is a DIVERGENCE, never a verdict)
+      autodiff |-> IF full /\ NStates(T) <= 40 THEN DiffWithDump(C, type, Build(C, type, TRoots(T)), T) ELSE {}]
 Init == i = 0
 Next == /\ i < Len(Dumps)
         /\ i' = i + 1
